@@ -21,7 +21,8 @@ suite `build`: `to_marrow(fields, rows)`.
               with malformed key/value call streams (`containsMalformed`) included: since repo fix bcc3416 a Map builder
               refuses the streams that do not alternate and `C03_wf` carries no hypothesis about them, so a malformed
               stream into a schema is never accepted with arrays that are not well formed
-          C05 success ⇒ every row was representable
+          C05 success ⇒ every row was representable; a malformed call stream accepted with arrays that are not well
+              formed fails it (and C16: a failure that was not reported as an error)
           C16 no panic
           C18 an error is annotated with the field the model blames
 -/
@@ -164,6 +165,10 @@ def handle (j : Json) : Except String Verdict := do
           (fields.zip iarrs).all (fun (f, a) => WF f a && (decodeAll a).length == rows.length)
         pure (if wfAll then "na" else "fail")
       else pure "na" : Except String String)
+    -- a malformed call stream that is ACCEPTED with arrays that are not well formed is a failure that was not reported
+    -- as an error (C16) and an accepted unrepresentable input (C05): finding C16-map-key-value-alternation
+    let c16 := if anyMalformed && c03 == "fail" then "fail" else c16
+    let c05 := if anyMalformed && c03 == "fail" then "fail" else c05
     return { agree := false, spec := [("C16", c16), ("C05", c05), ("C01", "na"), ("C03", c03), ("C18", "na")], tags := tags,
              sig := if c03 == "fail" then s!"build/C03/accepted-by-impl-only/model={model.cls}" else s!"build/class/model={model.cls}/impl={cls}",
              why := s!"outcome class: model {model.cls} ({repr model.ann}), implementation {cls}: {(impl.getObjVal? cls).toOption.getD Json.null}" }
@@ -225,6 +230,9 @@ def handle (j : Json) : Except String Verdict := do
       | .error _ => false
     -- no exemption for malformed call streams: whatever is accepted must be well formed (`C03_wf` has no `rawOK`)
     let c03 := if wfAll then "pass" else "fail"
+    -- … and a malformed stream accepted with such arrays is also a C16 / C05 failure (see above)
+    let c16 := if anyMalformed && !wfAll && !fields.any hasFsb0 then "fail" else c16
+    let c05 := if anyMalformed && !wfAll && !fields.any hasFsb0 then "fail" else c05
     let badCol := firstNotWf.getD 0
     let cul := match fields[badCol]?, iarrs[badCol]? with
       | some f, some a => if firstNotWf.isSome then culpritSig f a else "-"
